@@ -1,5 +1,5 @@
 SPECIFICATION Spec
-CONSTANT MaxN = 4
+CONSTANT MaxN = 3
 CONSTANT MaxF = 2
 CONSTRAINT Bound
 VIEW View
